@@ -1,6 +1,7 @@
 """C01 — partial: literal codec (K1), clause meaning vs. watches (K2), watch replacement (K3)."""
 from common import Harness, source_lines
 from kani_prop import ARENA_SCALE, Attach, run_incrate, replay_incrate
+from cert_prop import CERT_ASSUMPTIONS, cert_extra, is_cert_replay, replay_cert
 
 PROP = "C01"
 HOST = "src/solver/clause.rs"
@@ -89,10 +90,20 @@ RULE = ("one evaluation = one CBMC property (assertion / overflow / bounds / poi
         "was SUCCESSFUL with no unwinding-assertion failure; a harness is non-trivial when every kani::cover! witness in it was SATISFIED")
 
 
+CERT_FUNCTIONS = ["src/solver/encoding.rs (whole Encoder, executed natively; its emitted clauses are the object of the SMT queries)",
+                  "src/solver/mod.rs: Solver::solve/run_sat/propagate/decide/analyze (executed natively; verdict, solution and learnt clauses certified by z3)"]
+CERT_NOTE = ["end-to-end part (certificate engine): per universe z3 decides `solution |= Spec(U)` and `emitted clause database |= Spec(U) restricted to what was fetched` over all selections; universes are enumerated, not symbolic"]
+CERT_RULE = ("; certificate engine: one evaluation = one z3 query answered; a universe is non-trivial for C01 when solve returned a solution "
+             "(model + completeness queries were asked for it)")
+
+
 def run(tier, seed, only):
-    return run_incrate(PROP, tier, seed, only, ATTACH, harnesses(tier), functions(), ASSUMPTIONS,
-                       ["ahash::RandomState::new"], RULE, scalings=[ARENA_SCALE])
+    return run_incrate(PROP, tier, seed, only, ATTACH, harnesses(tier), functions() + CERT_FUNCTIONS,
+                       ASSUMPTIONS + CERT_ASSUMPTIONS + CERT_NOTE, ["ahash::RandomState::new"], RULE + CERT_RULE,
+                       scalings=[ARENA_SCALE], extra=None if only else cert_extra(PROP, tier, seed))
 
 
 def replay(path):
+    if is_cert_replay(path):
+        return replay_cert(PROP, path)
     return replay_incrate(PROP, path, ATTACH, scalings=[ARENA_SCALE])
